@@ -45,6 +45,11 @@ class Cover(object):
         for c in self._all_codes(code):
             if c not in self.codes:
                 self.codes[c] = label if c is code else '%s.<%s>' % (label, c.co_name)
+                if self.armed:
+                    try:
+                        _mon.set_local_events(TOOL, c, _mon.events.LINE)
+                    except Exception:
+                        pass
 
     def arm(self):
         if _mon is None or self.armed:
